@@ -333,6 +333,13 @@ def r18_4(rep):
             local = [c for c in callees if c.endswith("%s::visit_items" % mod)]
             rep.check(bool(local) and rec in callees, "visitor:%s:%s" % (mod, meth),
                       "processes its own items and recurses (%s)" % ", ".join(callees), v.loc(v.root))
+            # the recursion is what reaches the modules below this one: it happens on every path, whatever this level contains
+            for c in [c for c in v.calls() if c.get("callee", "") == rec]:
+                gs = [(pol, kind) for pol, kind, g in v.guards(c, nested=True)]
+                rep.check(not gs, "visitor-recursion-unconditional:%s:%s" % (mod, meth),
+                          "the walk continues below this level on every path" if not gs else
+                          "the recursion into nested modules is skipped on some path (%s): a module below one with nothing to do at its own "
+                          "level is never processed" % ", ".join("%s%s" % ("" if pol else "not ", kind) for pol, kind in gs), v.loc(c))
 
 
 REORDERING = {"insert", "splice", "rotate_left", "rotate_right", "reverse", "swap", "swap_remove", "retain", "retain_mut", "drain", "remove",
